@@ -176,13 +176,16 @@ def _validate(ctx, events, san_text, label, replay_of, parts):
     cm = _ctxmap(events)
     sanlines = [l for l in san_text.splitlines() if "SUMMARY:" in l or "runtime error:" in l]
 
+    order = {id(e): i for i, e in enumerate(events)}
+    found = []                      # chunks are validated concurrently: report in trace order so that the witness is reproducible
+
     def on_reject(e, idx, block):
         if e["e"] in ("Points", "Ranks", "Reset"):
             raise InfraError("harness projection rejected by TraceSelect (%s): %s" % (e["e"], json.dumps(e)[:300]))
         sig, what = _sig(e, cm)
         if e["e"] == "Crash" and sanlines:
             what += " [" + sanlines[0].strip()[:200] + "]"
-        ctx.violation(sig, what, replay_of(cm[id(e)]["pts"], e))
+        found.append((order[id(e)], sig, what, replay_of(cm[id(e)]["pts"], e)))
         return lambda x: x["e"] == e["e"] and _sig(x, cm)[0] == sig
     chunks = _chunks(events, parts)
 
@@ -191,6 +194,8 @@ def _validate(ctx, events, san_text, label, replay_of, parts):
         return trace.check_trace(ctx, "TraceSelect", "Trace_Select.cfg", "Trace_Select_prop.cfg", ch, on_reject, drop="event", label="%s_%d" % (label, i), max_rounds=16)
     with ThreadPoolExecutor(max(1, min(WORKERS, len(chunks)))) as ex:
         rej = sum(ex.map(one, enumerate(chunks)))
+    for _, sig, what, rp in sorted(found, key=lambda t: t[0]):
+        ctx.violation(sig, what, rp)
     ctx.traces(sum(1 for e in events if e["e"] == "Reset"))
     return rej
 
@@ -264,7 +269,8 @@ def run(ctx):
         _account(ctx, ev_grid, "grid")
         _account(ctx, ev_rand, "rand")
         kms = [e for e in ev_grid + ev_rand if e["e"] == "Km"]
-        if not kms or not any(e["iters"] > 0 for e in kms):
+        km_crashed = any(e["e"] == "Crash" and e.get("call", "").startswith("KMeans(") for e in ev_grid + ev_rand)
+        if (not kms or not any(e["iters"] > 0 for e in kms)) and not km_crashed:
             raise InfraError("no k-means iteration was observed: hook H3 (getLabels_) is not firing")
         ctx.steps["kmeans_runs"] = len(kms)
         ctx.steps["kmeans_iteration_cap_reached"] = sum(1 for e in kms if e["conv"] != 1)
